@@ -44,4 +44,18 @@ theorem cyCmp_eq_pyCmp {α} (O : Ops α) (op : Op) (ps : List (α × α))
         | err e => rfl
         | ok b => cases b <;> rfl
 
+/-- with a guard that passes exactly the same-class operands, the whole method (guard + field
+comparison) agrees with CPython's for every class relation -/
+theorem cyMethod_eq_pyMethod {α} (g : Guard) (hg : GuardWF g) (O : Ops α) (op : Op) (rel : Rel)
+    (inDef : Bool) (ps : List (α × α)) (h : ∀ p ∈ ps, Sane O p.1 p.2) :
+    cyMethod g O op rel inDef ps = pyMethod O op rel ps := by
+  unfold cyMethod pyMethod
+  obtain ⟨h1, h2, h3, h4⟩ := hg inDef
+  rw [cyCmp_eq_pyCmp O op ps h]
+  cases rel
+  · rw [h1]; rfl
+  · rw [h2]; rfl
+  · rw [h3]; rfl
+  · rw [h4]; rfl
+
 end CyVerif.C30Cmp
